@@ -271,4 +271,8 @@ def check_ready_probe(repo: Repo, rep: Report, rule: str) -> None:
         # the verdict must be `readable or pending`
         r = enclosing(c, (ast.Return,))
         okr = r is not None and isinstance(r.value, ast.BoolOp) and isinstance(r.value.op, ast.Or) and any("ready" in norm(v) for v in r.value.values)
+        if not okr and r is not None:
+            # equivalent spelling: `if ready: return True` earlier, then `return bool(pending)`
+            early = [i for i in walk_no_nested(fn) if isinstance(i, ast.If) and norm(i.test) in ("ready", "bool(ready)") and i.lineno < r.lineno and i.body and isinstance(i.body[-1], ast.Return) and isinstance(i.body[-1].value, ast.Constant) and i.body[-1].value.value is True]
+            okr = bool(early)
         rep.check(okr, rule, fq, r if r is not None else "return bool(ready) or bool(pending)", "buffered TLS data must make the socket ready in addition to, not instead of, select()", mod=tr, node=c)
